@@ -386,4 +386,63 @@ example : (∀ c ∈ [[97], [32], [98]], ValidChunk c) ∧
   simp only [List.mem_cons, List.not_mem_nil, or_false] at hc
   rcases hc with rfl | rfl | rfl <;> exact ⟨_, _, rfl, by decide⟩
 
+/-! ## whole-file read / write: success means the bytes fully came from / reached the file -/
+
+/-- **C16, read faults.**  `gp_str_file(.., "read")` reports success exactly when `stat` and `fopen` succeeded
+and the stream delivered as many bytes as `stat` had sampled; the destination then holds exactly those bytes. -/
+theorem strFileRead_opened (e : ReadEnv) (n : Nat) (hs : e.statSize = some n) (ho : e.opens = true) :
+    strFileRead e = if n ≤ e.stream.length then (0, some (e.stream.take n)) else (-1, none) := by
+  unfold strFileRead
+  simp only [hs, ho, Bool.not_true, Bool.false_eq_true, if_false, List.length_take]
+  by_cases hl : n ≤ e.stream.length
+  · have : min n e.stream.length = n := by omega
+    simp [this, hl]
+  · have : min n e.stream.length ≠ n := by omega
+    simp [this, hl]
+
+theorem read_ok_iff (e : ReadEnv) :
+    (strFileRead e).1 = 0 ↔ ∃ n, e.statSize = some n ∧ e.opens = true ∧ n ≤ e.stream.length := by
+  cases hs : e.statSize with
+  | none => simp [strFileRead, hs]
+  | some n =>
+    by_cases ho : e.opens = true
+    · rw [strFileRead_opened e n hs ho]
+      by_cases hl : n ≤ e.stream.length <;> simp [ho, hl]
+    · simp [strFileRead, hs, ho]
+
+theorem read_ok_content (e : ReadEnv) (h : (strFileRead e).1 = 0) :
+    ∃ n, e.statSize = some n ∧ (strFileRead e).2 = some (e.stream.take n) ∧ (e.stream.take n).length = n := by
+  obtain ⟨n, hs, ho, hl⟩ := (read_ok_iff e).1 h
+  refine ⟨n, hs, ?_, by simp only [List.length_take]; omega⟩
+  rw [strFileRead_opened e n hs ho]; simp [hl]
+
+/-- a file that shrank between the size sample and the read is never reported as read -/
+theorem short_read_fails (e : ReadEnv) (n : Nat) (hs : e.statSize = some n) (hl : e.stream.length < n) :
+    (strFileRead e).1 = -1 := by
+  by_cases ho : e.opens = true
+  · rw [strFileRead_opened e n hs ho]
+    have : ¬ n ≤ e.stream.length := by omega
+    simp [this]
+  · simp [strFileRead, hs, ho]
+
+/-- **C16, write faults.**  Success exactly when the file opened, every byte was accepted and the close flushed. -/
+theorem write_ok_iff (e : WriteEnv) (append : Bool) (old s : Bytes) :
+    (strFileWrite e append old s).1 = 0 ↔ e.opens = true ∧ s.length ≤ e.accepts ∧ e.closeOk = true := by
+  unfold strFileWrite
+  by_cases ho : e.opens = true <;> by_cases ha : e.accepts < s.length <;> by_cases hc : e.closeOk = true <;>
+    simp [ho, ha, hc] <;> omega
+
+/-- **C16, round trip.**  Without faults, writing `a`, reading back, appending `b`, reading back gives `a`
+and `a ++ b`, for any bytes. -/
+theorem write_read_roundtrip (old a b : Bytes) :
+    strFileWrite (quietWrite a) false old a = (0, some a) ∧
+    strFileRead (quietRead a) = (0, some a) ∧
+    strFileWrite (quietWrite b) true a b = (0, some (a ++ b)) ∧
+    strFileRead (quietRead (a ++ b)) = (0, some (a ++ b)) := by
+  refine ⟨?_, ?_, ?_, ?_⟩ <;> simp [strFileWrite, strFileRead, quietWrite, quietRead, ← List.length_append]
+
+-- non-vacuity: a file of 5 bytes that holds 3 when it is read; a device that takes 4 of 10 bytes
+example : strFileRead { statSize := some 5, opens := true, stream := [1, 2, 3] } = (-1, none) := by decide
+example : (strFileWrite { opens := true, accepts := 4, closeOk := true } false [] (List.replicate 10 7)).1 = -1 := by decide
+
 end Gpc.FileIO
